@@ -301,8 +301,10 @@ func c14R2(p *Prog, r *Report) {
 func c14R3(p *Prog, r *Report) {
 	const rule = "C14-R3"
 	r.Rule(rule, "serverCollector.ucs is read under the lock and written under the write lock; a user's collector is inserted only when a lookup made inside the same write-locked section found none (otherwise two first sessions of a user each install a collector and one's traffic vanishes); users are never deleted")
-	spec := &guardSpec{Rule: rule, PkgRel: "stats", OwnerType: "serverCollector", MuField: "mu",
-		Fields:       map[string]map[string]bool{"serverCollector": {"ucs": true}},
+	ucs := structFieldByType(p, "stats", "serverCollector", "map", isMapType)
+	muF := structFieldByType(p, "stats", "serverCollector", "sync.RWMutex", isRWMutex)
+	spec := &guardSpec{Rule: rule, PkgRel: "stats", OwnerType: "serverCollector", MuField: muF,
+		Fields:       map[string]map[string]bool{"serverCollector": {ucs: true}},
 		NoLockNeeded: map[string]string{}}
 	accs := runGuard(p, r, spec)
 	for _, a := range accs {
@@ -332,7 +334,7 @@ func c14R3(p *Prog, r *Report) {
 	uc := p.Func("stats", "serverCollector", "userCollector")
 	info := uc.Info()
 	recv := uc.RecvObj()
-	states := uc.LockStates(fmt.Sprintf("%p.mu", recv), LUnlocked)
+	states := uc.LockStates(fmt.Sprintf("%p.%s", recv, muF), LUnlocked)
 	nIns := 0
 	for _, v := range uc.G.V {
 		as, ok := v.Node.(*ast.AssignStmt)
@@ -345,7 +347,7 @@ func c14R3(p *Prog, r *Report) {
 				continue
 			}
 			sel, ok := ast.Unparen(ix.X).(*ast.SelectorExpr)
-			if !ok || sel.Sel.Name != "ucs" {
+			if !ok || sel.Sel.Name != ucs {
 				continue
 			}
 			nIns++
@@ -381,7 +383,7 @@ func c14R3(p *Prog, r *Report) {
 				between := uc.G.ReachAfter(lv.ID, func(x *Vertex) bool { return x.ID == v.ID }, nil)
 				for _, cs := range uc.AllCalls() {
 					op, mu := mutexOp(info, cs.Call)
-					if (op == opUnlock || op == opRUnlock) && pathKey(info, mu) == fmt.Sprintf("%p.mu", recv) && between[cs.V] && uc.G.Reach([]int{cs.V}, nil, nil)[v.ID] {
+					if (op == opUnlock || op == opRUnlock) && pathKey(info, mu) == fmt.Sprintf("%p.%s", recv, muF) && between[cs.V] && uc.G.Reach([]int{cs.V}, nil, nil)[v.ID] {
 						unlocked = true
 					}
 				}
@@ -406,9 +408,13 @@ func c14R4(p *Prog, r *Report) {
 		info := fc.Info()
 		prefix := "stats.(*serverCollector)." + pair[0]
 		recv := fc.RecvObj()
-		states := fc.LockStates(fmt.Sprintf("%p.mu", recv), LUnlocked)
+		ucs := structFieldByType(p, "stats", "serverCollector", "map", isMapType)
+		muF := structFieldByType(p, "stats", "serverCollector", "sync.RWMutex", isRWMutex)
+		tcF := structFieldByType(p, "stats", "serverCollector", "trafficCollector", func(t types.Type) bool { return namedTypeName(t) == "trafficCollector" })
+		states := fc.LockStates(fmt.Sprintf("%p.%s", recv, muF), LUnlocked)
 		// anonymous part
 		anon := false
+		var totals ast.Expr // the accumulator that becomes the result's Traffic
 		for _, v := range fc.G.V {
 			as, ok := v.Node.(*ast.AssignStmt)
 			if !ok || len(as.Rhs) != 1 {
@@ -418,9 +424,10 @@ func c14R4(p *Prog, r *Report) {
 			if c, ok := ast.Unparen(fc.Resolve(as.Rhs[0])).(*ast.CallExpr); ok {
 				fn := Callee(info, c)
 				if fn != nil && fn.Name() == pair[1] && namedTypeName(recvTypeOf(fn)) == "trafficCollector" {
-					if sel, ok := ast.Unparen(c.Fun).(*ast.SelectorExpr); ok && pathKey(info, sel.X) == fmt.Sprintf("%p.tc", recv) {
-						if l, ok := ast.Unparen(as.Lhs[0]).(*ast.SelectorExpr); ok && l.Sel.Name == "Traffic" && fc.G.Dominates([]int{v.ID}, fc.G.Exit) {
+					if sel, ok := ast.Unparen(c.Fun).(*ast.SelectorExpr); ok && pathKey(info, sel.X) == fmt.Sprintf("%p.%s", recv, tcF) {
+						if c14FlowsToResult(fc, as.Lhs[0], "Traffic") && fc.G.Dominates([]int{v.ID}, fc.G.Exit) {
 							anon = true
+							totals = as.Lhs[0]
 						}
 					}
 				}
@@ -432,7 +439,7 @@ func c14R4(p *Prog, r *Report) {
 		for _, v := range fc.G.V {
 			if v.Kind == VRange {
 				rs := v.Stmt.(*ast.RangeStmt)
-				if pathKey(info, rs.X) == fmt.Sprintf("%p.ucs", recv) {
+				if pathKey(info, rs.X) == fmt.Sprintf("%p.%s", recv, ucs) {
 					rng = v
 				}
 			}
@@ -479,11 +486,15 @@ func c14R4(p *Prog, r *Report) {
 					if a, ok := ast.Unparen(cs.Call.Args[0]).(*ast.SelectorExpr); !ok || objOf(info, a.X) != uObj || a.Sel.Name != "Traffic" {
 						addV = -2
 					}
+					if sel, ok := ast.Unparen(cs.Call.Fun).(*ast.SelectorExpr); !ok || totals == nil || !samePath(info, sel.X, totals) {
+						addV = -2 // added to something other than the totals
+					}
 				}
 			}
 			if as, ok := v.Node.(*ast.AssignStmt); ok && len(as.Rhs) == 1 {
 				if c, ok := ast.Unparen(as.Rhs[0]).(*ast.CallExpr); ok {
-					if id, ok := ast.Unparen(c.Fun).(*ast.Ident); ok && id.Name == "append" && len(c.Args) == 2 && objOf(info, c.Args[1]) == uObj && uObj != nil {
+					if id, ok := ast.Unparen(c.Fun).(*ast.Ident); ok && id.Name == "append" && len(c.Args) == 2 && objOf(info, c.Args[1]) == uObj && uObj != nil &&
+						samePath(info, as.Lhs[0], c.Args[0]) && c14FlowsToResult(fc, as.Lhs[0], "Users") {
 						appV = v.ID
 					}
 				}
@@ -718,3 +729,75 @@ func c14R6(p *Prog, r *Report) {
 	r.Check(nTraffic > 0, rule, "api/ssm.handleGetUser:has-traffic", p.posStr(gu.Body.Pos()), "the answer carries traffic figures", "the per-user answer carries no traffic figures")
 	r.Floor(rule, 6)
 }
+
+// c14FlowsToResult: e is the named result's field f, or a local variable that every return
+// statement places in field f of the returned composite literal.
+func c14FlowsToResult(fc *FuncCtx, e ast.Expr, f string) bool {
+	info := fc.Info()
+	root, path, ok := pathOf(info, e)
+	if !ok {
+		return false
+	}
+	if res := fc.ResultObj(0); res != nil && root == res && path == "."+f {
+		return true
+	}
+	if path != "" {
+		return false
+	}
+	rets := fc.Returns()
+	if len(rets) == 0 {
+		return false
+	}
+	for _, ret := range rets {
+		rs := fc.G.V[ret].Node.(*ast.ReturnStmt)
+		if len(rs.Results) != 1 {
+			return false
+		}
+		cl, ok := ast.Unparen(fc.Resolve(rs.Results[0])).(*ast.CompositeLit)
+		if !ok {
+			return false
+		}
+		found := false
+		for _, el := range cl.Elts {
+			if kv, ok := el.(*ast.KeyValueExpr); ok {
+				if id, ok := kv.Key.(*ast.Ident); ok && id.Name == f && objOf(info, kv.Value) == root {
+					found = true
+				}
+			}
+		}
+		if !found {
+			return false
+		}
+	}
+	return true
+}
+
+// structFieldByType returns the name of the single field of the named struct type whose type
+// satisfies pred; the rule's anchor is the field's type, not its name.
+func structFieldByType(p *Prog, pkgRel, typeName, what string, pred func(t types.Type) bool) string {
+	obj := p.Pkg(pkgRel).Types.Scope().Lookup(typeName)
+	if obj == nil {
+		fatalf("anchor: type %s.%s not found", pkgRel, typeName)
+	}
+	st, ok := obj.Type().Underlying().(*types.Struct)
+	if !ok {
+		fatalf("anchor: %s.%s is not a struct", pkgRel, typeName)
+	}
+	name := ""
+	for i := 0; i < st.NumFields(); i++ {
+		if pred(st.Field(i).Type()) {
+			if name != "" {
+				fatalf("anchor: %s.%s has more than one %s field (%s, %s)", pkgRel, typeName, what, name, st.Field(i).Name())
+			}
+			name = st.Field(i).Name()
+		}
+	}
+	if name == "" {
+		fatalf("anchor: %s.%s has no %s field", pkgRel, typeName, what)
+	}
+	return name
+}
+
+func isMapType(t types.Type) bool { _, ok := t.Underlying().(*types.Map); return ok }
+func isRWMutex(t types.Type) bool { return types.TypeString(t, nil) == "sync.RWMutex" }
+func isMutex(t types.Type) bool   { return types.TypeString(t, nil) == "sync.Mutex" }
